@@ -72,6 +72,77 @@ theorem C04_clauses (ext : Ext) (cfg : Config) (icfg : ICfg) (h : newInternalCon
     · simp only [Bool.or_eq_true, beq_iff_eq, Bool.and_eq_true, decide_eq_true_eq] at hb; exact hb
     · simp [hb] at hs
 
+/-! ### The ASCII precondition of the case-mapping calls
+
+`util.ByteLowercase` / `util.ByteUppercase` are `strings.ToLower` / `strings.ToUpper`, which map *Unicode* letters
+(U+017F `ſ` ↦ `S`, U+0131 `ı` ↦ `I`, U+212A ↦ `k`, U+0130 ↦ `i̇`); the model (`Bytes.lower`, `Bytes.upper`,
+`Methods.normalize`) is the ASCII byte map.  The two agree exactly on ASCII input.  The list below (regenerated from
+the source on every run) holds every call of such a function in the non-test code with the conditions that
+syntactically dominate it, or its constant argument.  Audit, site by site:
+
+  * `validateMethods|methods.Normalize(name)` and `…|methods.IsForbidden(name)` — after `!(!methods.IsValid(name))`: a valid
+    method is a token, tokens are ASCII (`C04_valid_ascii`);
+  * `validateRequestHeaders|util.ByteLowercase(name)`, `validateResponseHeaders|util.ByteLowercase(name)` — after
+    `!(!headers.IsValid(name))`: a valid header name is a token;
+  * `headers.|util.ByteLowercase(<const>)` — package-level tables built from constants, all ASCII (`C04_caseMap_consts_ascii`);
+  * `methods.IsForbidden|util.ByteUppercase(name)`, `methods.Normalize|util.ByteUppercase(method)`,
+    `util.ByteLowercase|strings.ToLower(str)`, `util.ByteUppercase|strings.ToUpper(str)` — the wrappers themselves; their
+    callers are the sites above (no call from the request path: a method or header name taken from a request is never case-mapped).
+
+A new call site (say, on request data), a validity test dropped or moved below the call, break the obligation. -/
+
+def auditedCaseMapSites : List Bytes := [
+  Spec.b "cors.validateMethods|methods.IsForbidden(name)|!(len(names) == 0) ; _ := range names ; !(name == headers.ValueWildcard) ; !(!methods.IsValid(name)) ; !(methods.IsSafelisted(name))",
+  Spec.b "cors.validateMethods|methods.Normalize(name)|!(len(names) == 0) ; _ := range names ; !(name == headers.ValueWildcard) ; !(!methods.IsValid(name))",
+  Spec.b "cors.validateRequestHeaders|util.ByteLowercase(name)|!(len(names) == 0) ; _ := range names ; !(name == headers.ValueWildcard) ; !(!headers.IsValid(name))",
+  Spec.b "cors.validateResponseHeaders|util.ByteLowercase(name)|!(len(names) == 0) ; _ := range names ; !(name == headers.ValueWildcard) ; !(!headers.IsValid(name))",
+  Spec.b "headers.|util.ByteLowercase(ACAC)|const=Access-Control-Allow-Credentials",
+  Spec.b "headers.|util.ByteLowercase(ACAH)|const=Access-Control-Allow-Headers",
+  Spec.b "headers.|util.ByteLowercase(ACAH)|const=Access-Control-Allow-Headers",
+  Spec.b "headers.|util.ByteLowercase(ACAM)|const=Access-Control-Allow-Methods",
+  Spec.b "headers.|util.ByteLowercase(ACAM)|const=Access-Control-Allow-Methods",
+  Spec.b "headers.|util.ByteLowercase(ACAO)|const=Access-Control-Allow-Origin",
+  Spec.b "headers.|util.ByteLowercase(ACAPN)|const=Access-Control-Allow-Private-Network",
+  Spec.b "headers.|util.ByteLowercase(ACAPN)|const=Access-Control-Allow-Private-Network",
+  Spec.b "headers.|util.ByteLowercase(ACEH)|const=Access-Control-Expose-Headers",
+  Spec.b "headers.|util.ByteLowercase(ACMA)|const=Access-Control-Max-Age",
+  Spec.b "headers.|util.ByteLowercase(ACMA)|const=Access-Control-Max-Age",
+  Spec.b "headers.|util.ByteLowercase(ACRH)|const=Access-Control-Request-Headers",
+  Spec.b "headers.|util.ByteLowercase(ACRH)|const=Access-Control-Request-Headers",
+  Spec.b "headers.|util.ByteLowercase(ACRM)|const=Access-Control-Request-Method",
+  Spec.b "headers.|util.ByteLowercase(ACRM)|const=Access-Control-Request-Method",
+  Spec.b "headers.|util.ByteLowercase(ACRPN)|const=Access-Control-Request-Private-Network",
+  Spec.b "headers.|util.ByteLowercase(ACRPN)|const=Access-Control-Request-Private-Network",
+  Spec.b "headers.|util.ByteLowercase(Origin)|const=Origin",
+  Spec.b "headers.|util.ByteLowercase(Origin)|const=Origin",
+  Spec.b "methods.IsForbidden|util.ByteUppercase(name)|",
+  Spec.b "methods.Normalize|util.ByteUppercase(method)|",
+  Spec.b "util.ByteLowercase|strings.ToLower(str)|",
+  Spec.b "util.ByteUppercase|strings.ToUpper(str)|"
+]
+
+/-- **C04 (case-mapping sites).** The code case-maps exactly at the audited sites, each under exactly the audited
+dominating conditions. -/
+theorem C04_caseMap_sites : Facts.cors_caseMapSites = auditedCaseMapSites := by decide +kernel
+
+/-- The constant arguments of the case-mapping calls are ASCII. -/
+theorem C04_caseMap_consts_ascii : ∀ s ∈ Facts.cors_caseMapConstArgs, ∀ b ∈ s, b < 128 := by decide +kernel
+
+/-- A name that passes the validity test (`httpguts.ValidHeaderFieldName`, `methods.IsValid`: non-empty, token bytes
+only) is ASCII: on it the Unicode-aware library functions and the model's byte maps coincide. -/
+theorem C04_valid_ascii (name : Bytes) (h : Headers.isValid name = true) : ∀ b ∈ name, b < 128 := by
+  intro b hb
+  unfold Headers.isValid at h
+  simp only [Bool.and_eq_true, List.all_eq_true] at h
+  have ht := h.2 b hb
+  unfold Headers.isTchar at ht
+  simp only [Bool.or_eq_true, Bool.and_eq_true, decide_eq_true_eq, List.contains_eq_mem, List.mem_cons, List.mem_nil_iff, or_false] at ht
+  omega
+
+#print axioms C04_caseMap_sites
+#print axioms C04_caseMap_consts_ascii
+#print axioms C04_valid_ascii
+
 #print axioms C04
 #print axioms C04_nil
 #print axioms C04_clauses
